@@ -20,6 +20,7 @@ type absCtx struct {
 	drvDir string // driver source dir, mapped to /R/prog via root
 	tokens map[string]string
 	goJSON map[string]string // json.Marshal text of the driver's named Go values
+	crlf   map[string]bool   // multi-entry init files of the current scenario whose lines end in CRLF
 }
 
 func newAbsCtx(root string, goJSON map[string]string) *absCtx {
@@ -116,6 +117,13 @@ func (a *absCtx) fsOf(d *RawDir, roles map[string]InitFile) []any {
 		} else {
 			b, _ := base64.StdEncoding.DecodeString(f.B64)
 			ls, nl := splitFile(b)
+			if a.crlf[f.P] {
+				// a multi-entry file checked out with CRLF line endings: the format's lines are
+				// bufio.ScanLines lines (one trailing CR is not part of the line)
+				for i := range ls {
+					ls[i] = strings.TrimSuffix(ls[i], "\r")
+				}
+			}
 			rec["kind"] = "file"
 			rec["lines"] = a.lines(ls)
 			rec["nl"] = nl
@@ -425,7 +433,11 @@ func abstractRun(a *absCtx, r *ScenarioRun, drvDir string) ([]map[string]any, er
 	s := r.Sc
 	steps := s.stepByID()
 	roles := map[string]InitFile{}
+	a.crlf = map[string]bool{}
 	for _, f := range s.Init {
+		if f.CRLF {
+			a.crlf[f.P] = true
+		}
 		roles[f.P] = f
 		if s.DefaultLoc { // projected directory is <driver>/__snapshots__
 			roles[strings.TrimPrefix(f.P, "__snapshots__/")] = f
